@@ -357,6 +357,14 @@ def run(ctx):
                     continue
                 if f.kind in ("ctor", "dtor") or f.flags.get("move_assign") or f.flags.get("copy_assign") or f.name in ("swap",):
                     continue
+                # an alias that only forwards its own parameter to the setter (a second spelling of the same setting)
+                stm = [e for _, _, e in f.roots() if e["expr"].get("k") != "return" or e["expr"].get("e") is not None]
+                if len(stm) == 1 and len(f.params) == 1:
+                    c0 = ir.unwrap(stm[0]["expr"].get("e") if stm[0]["expr"].get("k") == "return" else stm[0]["expr"])
+                    if isinstance(c0, dict) and c0.get("k") == "call" and short(c0.get("name") or "") == setter and [fmt(ir.unwrap(a)) for a in c0.get("args", [])] == [f.params[0]["name"]] \
+                            and (c0.get("this") is None or fmt(ir.unwrap(c0["this"])) in ("this", "(*this)")):
+                        ctx.ok("R12.7", f, "setter-alias:" + short(fq), "%s(%s) forwards its parameter to %s()" % (f.name, f.params[0]["name"], setter), f)
+                        continue
                 ctx.bad("R12.7", f, "foreign-writer:%s" % short(fq),
                         "%s changes %s (through %s): %s, so a parser configured with one setting silently gets another accepted count / mode"
                         % (short(f.qual), short(fq), ", ".join(sorted(short(g.qual) for g in writers)), "only %s() may set it" % setter), f)
